@@ -54,3 +54,9 @@ claim("C11",
   "Switch off: the read log must contain nothing but the root location (nothing at all for LoadFromData / LoadFromDataWithPath, whose root bytes are supplied by the caller). Switch on: every logged location must be designated by a reference of a document already read, resolved against that document's own location. Because a decoy is served, a leak shows as a logged read rather than as an error.",
   "Trusted: observation at Loader.ReadFromURIFunc (reads that bypassed Loader.readURL would be invisible; the code has exactly one call site, readURL). The closure comes from internal/fsgen.Resolve.",
   "DESIGN.md#c11")
+
+claim("C16",
+  "property-based testing with a before/after equivalence (metamorphic) oracle: fsgen multi-file layouts loaded with external references allowed, internalised with the default name resolver, then judged on the marshalled result: no outside reference, reloadable with the switch off, same Validate verdict, and equality of the fully expanded content (references replaced by targets found by an independent resolver, cycles cut by marker) of paths and of every root component",
+  "For every generated layout the internalised document must be self-contained, load offline, validate exactly when the original does, and expand to the same marker-tagged content everywhere - so a reference rewritten to the wrong component, two targets merged under one name, a dangling rewritten reference or a self reference is caught. Runs under the watchdog/journal (two non-termination defects of InternalizeRefs were found and repaired under C20).",
+  "Trusted: internal/fsgen (layout generator and resolver), marker-based expansion. Chains through external components are excluded by construction (open finding, witness replayed every run). Traffic verdict equivalence (requests/responses against both documents) is not yet part of the check.",
+  "DESIGN.md#c16")
